@@ -5,12 +5,12 @@ import json, os, re, subprocess, sys
 ROOT = os.path.dirname(os.path.dirname(os.path.abspath(__file__)))
 MAP = [("secs2/", ["C01", "C02", "C12", "C16"]), ("sml/", ["C14"]), ("hsms/decode.go", ["C03", "C04", "C12"]), ("hsms/data_msg.go", ["C03", "C12", "C07"]),
        ("hsms/control_msg.go", ["C03", "C08", "C12"]), ("internal/wire/", ["C03", "C12"]), ("secs1/transport.go", ["C09", "C17"]), ("secs1/", ["C17"]),
-       ("hsmsss/transport_recv.go", ["C04", "C05", "C07", "C08"]), ("hsmsss/transport_procedures.go", ["C19", "C07", "C08"]), ("hsmsss/transport.go", ["C10"]),
+       ("hsmsss/transport_recv.go", ["C04", "C05", "C07", "C08"]), ("hsmsss/transport_procedures.go", ["C19", "C07", "C08"]), ("hsmsss/transport.go", ["C10"]), ("hsmsss/transport_control.go", ["C07", "C08"]),
        ("hsms/connection_send.go", ["C06", "C07", "C09", "C20"]), ("hsms/connection_runtime.go", ["C06", "C20"]),
        ("hsms/connection_lifecycle.go", ["C05", "C09", "C10", "C11", "C20"]), ("hsms/supervisor.go", ["C05"]), ("hsms/session.go", ["C06", "C07"])]
 env = dict(os.environ, GOVC_NOEVIDENCE="1", GOVC_REPLAYDIR="/tmp/govc-neutral-replays", GOVC_MAX_REPLAYS="0")
 bad = 0
-for d in sys.argv[1:]:
+for d in [os.path.abspath(x) for x in sys.argv[1:]]:
     if subprocess.run(["git", "-C", "/repo", "status", "--porcelain"], capture_output=True, text=True).stdout.strip():
         sys.exit("/repo is dirty")
     files = re.findall(r"^\+\+\+ b/(\S+)", open(d).read(), re.M)
